@@ -48,11 +48,24 @@ func cActionThreadID(c *Ctx, r *Result, rule string) {
 			}
 			key := c.FuncKey(act)
 			ord := newOrdinals()
-			var visit func(f *ssa.Function)
-			visit = func(f *ssa.Function) {
+			// the body of the action may be a method the literal calls (rt.runAction(…, tid)): the id is
+			// followed into module callees through the parameter that receives it (two levels)
+			var visit func(f *ssa.Function, own ssa.Value, depth int)
+			visit = func(f *ssa.Function, own ssa.Value, depth int) {
 				allInstrs(f, func(x ssa.Instruction) {
 					ci, ok := x.(ssa.CallInstruction)
-					if !ok || !ci.Common().IsInvoke() {
+					if !ok {
+						return
+					}
+					if g := ci.Common().StaticCallee(); g != nil && depth < 2 && c.inModule(g) && len(g.Blocks) > 0 {
+						for i, a := range ci.Common().Args {
+							if unspill(a) == own && i < len(g.Params) {
+								visit(g, g.Params[i], depth+1)
+							}
+						}
+						return
+					}
+					if !ci.Common().IsInvoke() {
 						return
 					}
 					m := ci.Common().Method.Name()
@@ -70,16 +83,16 @@ func cActionThreadID(c *Ctx, r *Result, rule string) {
 					n++
 					site := ord.key(key, "eval-tid", accessPath(tidArg))
 					pos := c.Pos(c.InstrPos(x))
-					if unspill(tidArg) == ssa.Value(own) {
+					if unspill(tidArg) == own {
 						r.Instance(rule, site, pos, "ok", "evaluated under the thread id the engine handed to this invocation", true)
 						return
 					}
 					r.Instance(rule, site, pos, "finding", "evaluated under another thread id", true)
 					r.Report(Finding{Rule: rule, Site: site, Pos: pos,
-						Msg: fmt.Sprintf("%s: the sink body is evaluated under %s, not under the thread id parameter of the action (%s): every execution of the sink then runs with the id of the thread that declared it — two sink threads pass each other's mutex owner test and are inside one mutex block together", key, accessPath(tidArg), own.Name())})
+						Msg: fmt.Sprintf("%s: the sink body is evaluated under %s, not under the thread id the engine handed to the action (%s): every execution of the sink then runs with the id of the thread that declared it — two sink threads pass each other's mutex owner test and are inside one mutex block together", key, accessPath(tidArg), own.Name())})
 				})
 			}
-			visit(act)
+			visit(act, own, 0)
 		})
 	}
 	r.Floor(rule, n, 1)
